@@ -29,3 +29,7 @@ CHECKS["C12"] = (MC, "TLA+ spec Condition: model checked exhaustively (Condition
     "the five sentences of C12 are TLC-checked on the model and on every simulated cycle of generated condition() designs", CORE_NOTE, "5 (C12)")
 CHECKS["C13"] = (MC, "TLA+ spec Simultaneous: model checked (SimultaneousMC); real Connect / simultaneous() circuits simulated on all valuations and judged per cycle by SimultaneousTrace",
     "SameCycles and DataBothWays TLC-checked on the model and on every simulated cycle of generated designs", CORE_NOTE, "5 (C13)")
+CHECKS["C10"] = (MC, "TLA+ spec CombDeps (signal-level dependency graph of the scheduling model): TLC checks acyclicity for every admissible priority order of every generated rule-following design; the same designs are elaborated with the real library and their netlist checked for combinational cycles",
+    "rule-following designs (readiness reads run() only of bodies declared earlier) have an acyclic model dependency graph (TLC) and an acyclic real netlist (Amaranth bit-level check); negative controls show the detector fires", CORE_NOTE, "5 (C10)")
+CHECKS["C35"] = (MC, "profile cycles recorded from real simulations validated by TLC (ProfilerTrace over TxnCore) against independently sampled signals and the specification's conflict relation",
+    "every profile cycle and the run/locked statistics are judged by TLC; the conflict relation comes from TxnCore!Derive", CORE_NOTE, "5 (C35)")
